@@ -85,6 +85,37 @@ def p_other_objects(s):
     return p_accept(s)
 
 
+def p_entry_points(s):
+    """every way in that takes a version as a string accepts exactly the strings from_string accepts, and rejects the
+    others with ValueError: comparing, evaluating a constraint, matching a relationship"""
+    from debian_inspector import deps
+    try:
+        Version.from_string(s)
+        ok = True
+    except ValueError:
+        ok = False
+    one = Version.from_string('1')
+    ways = [('compare_versions(s, "1")', lambda: dv.compare_versions(s, '1')), ('compare_versions("1", s)', lambda: dv.compare_versions('1', s)),
+            ('compare_versions(s, s)', lambda: dv.compare_versions(s, s)),
+            ('eval_constraint(s, ">=", "1")', lambda: dv.eval_constraint(s, '>=', '1')), ('eval_constraint("1", "<<", s)', lambda: dv.eval_constraint('1', '<<', s)),
+            ('Version.compare(s)', lambda: one.compare(s)),
+            ('a relationship (>= s) matched against "1"', lambda: deps.VersionedRelationship(name='p', operator='>=', version=s).matches('p', '1'))]
+    if s:
+        ways.append(('a relationship (>= 1) matched against s', lambda: deps.VersionedRelationship(name='p', operator='>=', version='1').matches('p', s)))
+    for rep in (1, 2):      # twice: what an earlier call keeps must not change the answer
+        for how, f in ways:
+            try:
+                f()
+                got = True
+            except ValueError:
+                got = False
+            except Exception as ex:  # noqa
+                return '%s with s = %r raises %s, not ValueError' % (how, s, type(ex).__name__)
+            if got != ok:
+                return '%s %s s = %r, which from_string %s' % (how, 'accepts' if got else 'rejects', s, 'accepts' if ok else 'rejects')
+    return None
+
+
 def run(ctx):
     rng = ctx.rng
     unicode_sweep.sweep(ctx, ['is_space'])
@@ -130,6 +161,7 @@ def run(ctx):
 
     fails = ctx.prop('prop:accept/reject/decompose', allc, p_accept)
     fails += ctx.prop('prop:independent-of-other-objects', (small[::7] + acc + rej[::3] + syn)[:ctx.n(20000, 200000)], p_other_objects)
+    fails += ctx.prop('prop:every-entry-point-accepts-the-same-strings', (small[::11] + acc[::5] + rej[::3] + ws[::3] + syn + pos[::40])[:ctx.n(15000, 150000)], p_entry_points)
     st = ctx.stream('prop:accept/reject/decompose')
     st['accepted'] = sum(1 for s in allc if _ver.valid(s))
     fails.sort(key=lambda f: len(f[0]))
